@@ -214,8 +214,10 @@ def judge(spec: dict, events: list, *, entry: str, reported: set | None = None,
     shutdown_raised = [i for _n, i in raised_teardown if kind.get(i) == "shutdown"]
 
     def cause() -> str:
-        if shutdown_raised:  # only delivered when start-up succeeded (or only the site failed)
-            return "on_shutdown_raised"
+        # (a raising on_shutdown handler no longer skips the rest of the teardown since aiohttp's 'fix:' commit for
+        # C20-F3: it is named as the cause only when nothing else in the teardown raised)
+        if shutdown_raised and len(shutdown_raised) == len(raised_teardown):
+            return "on_shutdown_raised"  # only delivered when start-up succeeded (or only the site failed)
         if setup_failed_at is not None:
             return "startup_failed"
         if raised_teardown:
@@ -352,7 +354,7 @@ def selftest() -> None:
     assert judge(spec, t, entry="runner", reported={("m.c2", "teardown"), ("m.d0", "teardown"), ("A.x0", "teardown")}) == []
     bad = [e for e in t if e[1] != "A.c0" or e[0] in ("enter", "started")]
     v = judge(spec, bad, entry="runner")
-    assert [x["key"] for x in v] == ["runner:started_not_cleaned:on_shutdown_raised:sub"], v
+    assert [x["key"] for x in v] == ["runner:started_not_cleaned:teardown_raised:sub"], v
     # start-up order instead of reverse order
     t = documented_trace(spec)
     i0, i2 = t.index(["exit", "m.c0"]), t.index(["exit", "m.c2"])
